@@ -95,7 +95,8 @@ MAX_INST = (dt.datetime(9999, 12, 29) - EPOCH) // dt.timedelta(seconds=1)
 def fixed_offsets(rng):
     r = rng.random()
     if r < 0.25:
-        return rng.choice((0, 3600, -3600, 19800, -12600, -1800, -2700, 20700, 45900, -34200, 50400, -43200, 1800, -60, 60, -59 * 60))
+        return rng.choice((0, 3600, -3600, 19800, -12600, -1800, -2700, 20700, 45900, -34200, 50400, -43200, 1800, -60, 60, -59 * 60,
+                           15 * 3600, -15 * 3600, 16 * 3600 + 1800, -(18 * 3600 + 2700), 23 * 3600 + 59 * 60, -(23 * 3600 + 59 * 60)))
     return rng.randint(-14 * 60, 14 * 60) * 60
 
 
